@@ -250,7 +250,9 @@ def r4(ctx):
 def r5(ctx):
     rep = Report("C16.R5", "the eviction sweep re-reads the store size in every round: its only exit besides 'usage <= limit' is 'store empty', which another connection can make true at any time", floor=2)
     f = ctx.facts
-    b = f.one(RP + "::incr_mem_usage")
+    from rules import roles
+
+    b = roles.get(ctx).policy_sweep()
     rep.analysed(b)
     from rules.c17 import natural_loop
 
